@@ -8,6 +8,9 @@ open Gojq
 
 /-! ### lists of children -/
 
+@[simp] theorem cellIds_some (id c : Nat) : cellIds (some (id, c)) = [id] := rfl
+@[simp] theorem cellIds_none : cellIds none = [] := rfl
+
 theorem idsK_append (a b : Kids) : idsK (a ++ b) = idsK a ++ idsK b := by
   induction a with
   | nil => simp [idsK]
@@ -320,8 +323,7 @@ theorem enter_abs (e : PE) (v : T) (cell o fo) (h : enter e v = some (cell, o, f
 
 /-- at label level: the labels of `v` are its own cell followed by those of the three parts of the focus -/
 theorem enter_ids (e : PE) (v : T) (cell o fo) (h : enter e v = some (cell, o, fo)) :
-    v.ids = (match cell with | some (id, _) => [id] | none => []) ++
-      (idsK fo.pre ++ fo.child.ids ++ idsK fo.post) := by
+    v.ids = cellIds cell ++ (idsK fo.pre ++ fo.child.ids ++ idsK fo.post) := by
   cases e with
   | key k =>
     cases v with
@@ -336,7 +338,7 @@ theorem enter_ids (e : PE) (v : T) (cell o fo) (h : enter e v = some (cell, o, f
       | true =>
         simp only [enter, Option.some.injEq, Prod.mk.injEq] at h
         obtain ⟨rfl, rfl, rfl⟩ := h
-        simp only [T.ids, List.singleton_append, List.cons.injEq, true_and]
+        simp only [T.ids, cellIds_some, List.singleton_append, List.cons.injEq, true_and]
         exact splitKey_ids k ks
   | idx i =>
     cases v with
@@ -394,13 +396,16 @@ theorem upd_abs : ∀ (p : Path) (v n : T) (A : List Nat) (f : Nat) r,
         · simp only [Option.some.injEq] at h; subst h; exact (abs_node_plug _ _ _ _ _).symm
 
 
-/-- the two ways a container on the path is produced: written in place (owned), or a fresh owned copy -/
+/-- the two ways a container on the path is produced: written in place (owned), or a fresh owned copy;
+    the copy of an owned array that outgrew its capacity unregisters the old cell (`a.free`) -/
 theorem upd_step (A : List Nat) (f : Nat) (e : PE) (p : Path) (v n v' : T) (A' : List Nat) (f' : Nat) (log : Log)
     (h : upd A f (e :: p) v n = some (v', A', f', log)) :
     ∃ cell o fo u A1 f1 log1, enter e v = some (cell, o, fo) ∧ upd A f p fo.child n = some (u, A1, f1, log1) ∧
       ((∃ id c, cell = some (id, c) ∧ id ∈ A1 ∧ v' = .node id o c (fo.pre ++ (fo.key, u) :: fo.post) ∧
           A' = A1 ∧ f' = f1 ∧ log = log1 ++ [(id, fo.pre ++ (fo.key, u) :: fo.post)]) ∨
-       (∃ c', v' = .node f1 o c' (fo.pre ++ (fo.key, u) :: fo.post) ∧ A' = f1 :: A1 ∧ f' = f1 + 1 ∧ log = log1)) := by
+       (∃ c' A2, v' = .node f1 o c' (fo.pre ++ (fo.key, u) :: fo.post) ∧ A' = f1 :: A2 ∧ f' = f1 + 1 ∧ log = log1 ∧
+          ((A2 = A1 ∧ ∀ id c, cell = some (id, c) → id ∉ A1) ∨
+            ∃ id c, cell = some (id, c) ∧ id ∈ A1 ∧ A2 = A1.filter (· ≠ id)))) := by
   simp only [upd] at h
   split at h
   · cases h
@@ -419,13 +424,18 @@ theorem upd_step (A : List Nat) (f : Nat) (e : PE) (p : Path) (v n v' : T) (A' :
             exact Or.inl ⟨id, c, rfl, hin, rfl, rfl, rfl, rfl⟩
           · simp only [Option.some.injEq, Prod.mk.injEq] at h
             obtain ⟨rfl, rfl, rfl, rfl⟩ := h
-            exact Or.inr ⟨_, rfl, rfl, rfl, rfl⟩
-        · simp only [Option.some.injEq, Prod.mk.injEq] at h
+            exact Or.inr ⟨_, _, rfl, rfl, rfl, rfl, Or.inr ⟨id, c, rfl, hin, rfl⟩⟩
+        · rename_i hnin
+          simp only [Option.some.injEq, Prod.mk.injEq] at h
           obtain ⟨rfl, rfl, rfl, rfl⟩ := h
-          exact Or.inr ⟨_, rfl, rfl, rfl, rfl⟩
+          refine Or.inr ⟨_, _, rfl, rfl, rfl, rfl, Or.inl ⟨rfl, ?_⟩⟩
+          intro id' c' hc
+          simp only [Option.some.injEq, Prod.mk.injEq] at hc
+          obtain ⟨rfl, rfl⟩ := hc
+          exact hnin
       · simp only [Option.some.injEq, Prod.mk.injEq] at h
         obtain ⟨rfl, rfl, rfl, rfl⟩ := h
-        exact Or.inr ⟨_, rfl, rfl, rfl, rfl⟩
+        exact Or.inr ⟨_, _, rfl, rfl, rfl, rfl, Or.inl ⟨rfl, fun id c hc => by cases hc⟩⟩
 
 theorem ids_node_plug (id : Nat) (o : Bool) (c : Nat) (pre post : Kids) (k : Bytes) (u : T) :
     (T.node id o c (pre ++ (k, u) :: post)).ids = id :: (idsK pre ++ u.ids ++ idsK post) := by
@@ -442,7 +452,7 @@ theorem count_eq_zero_of_lt {l : List Nat} {f a : Nat} (h : ∀ j ∈ l, j < f) 
 theorem upd_book : ∀ (p : Path) (v n : T) (A : List Nat) (f : Nat) v' A' f' log,
     upd A f p v n = some (v', A', f', log) →
     (∀ j ∈ v.ids, j < f) → (∀ j ∈ n.ids, j < f) → (∀ a ∈ A, a < f) →
-    f ≤ f' ∧ (∀ a ∈ A', a ∈ A ∨ (f ≤ a ∧ a < f')) ∧ (∀ a ∈ A, a ∈ A') ∧
+    f ≤ f' ∧ (∀ a ∈ A', a ∈ A ∨ (f ≤ a ∧ a < f')) ∧ (∀ a ∈ A, a ∈ A' ∨ a ∈ spine p v) ∧
     (∀ j ∈ v'.ids, j < f') ∧
     (∀ a, a < f → v'.ids.count a ≤ v.ids.count a + n.ids.count a) ∧
     (∀ a, f ≤ a → v'.ids.count a ≤ 1) ∧
@@ -453,7 +463,7 @@ theorem upd_book : ∀ (p : Path) (v n : T) (A : List Nat) (f : Nat) v' A' f' lo
     intro v n A f v' A' f' log h hv hn hA
     simp only [upd, Option.some.injEq, Prod.mk.injEq] at h
     obtain ⟨rfl, rfl, rfl, rfl⟩ := h
-    refine ⟨Nat.le_refl _, fun a h => Or.inl h, fun a h => h, hn, fun a _ => by omega, ?_, by simp⟩
+    refine ⟨Nat.le_refl _, fun a h => Or.inl h, fun a h => Or.inl h, hn, fun a _ => by omega, ?_, by simp⟩
     intro a ha
     rw [count_eq_zero_of_lt hn ha]; omega
   | cons e p ih =>
@@ -466,7 +476,13 @@ theorem upd_book : ∀ (p : Path) (v n : T) (A : List Nat) (f : Nat) v' A' f' lo
     obtain ⟨hf, hA1, hAA1, hub, hcnt, hfresh, hlog⟩ := ih fo.child n A f u A1 f1 log1 hu hchild hn hA
     have hlogv : ∀ e ∈ log1, e.1 ∈ A ∧ e.1 ∈ v.ids := fun e he' =>
       ⟨(hlog e he').1, by rw [hids]; simp [(hlog e he').2]⟩
-    rcases hcase with ⟨id, c, rfl, hin, rfl, rfl, rfl, rfl⟩ | ⟨c', rfl, rfl, rfl, rfl⟩
+    have hspine : spine (e :: p) v = cellIds cell ++ spine p fo.child := by
+      simp only [spine, he]
+    have hAA1' : ∀ a ∈ A, a ∈ A1 ∨ a ∈ spine (e :: p) v := fun a ha => by
+      rcases hAA1 a ha with h | h
+      · exact Or.inl h
+      · exact Or.inr (by rw [hspine]; exact List.mem_append_right _ h)
+    rcases hcase with ⟨id, c, rfl, hin, rfl, rfl, rfl, rfl⟩ | ⟨c', A2, rfl, rfl, rfl, rfl, hA2⟩
     · -- in place
       have hidv : id ∈ v.ids := by rw [hids]; simp
       have hidf : id < f := hv id hidv
@@ -474,7 +490,7 @@ theorem upd_book : ∀ (p : Path) (v n : T) (A : List Nat) (f : Nat) v' A' f' lo
         rcases hA1 id hin with h | h
         · exact h
         · omega
-      refine ⟨hf, hA1, hAA1, ?_, ?_, ?_, ?_⟩
+      refine ⟨hf, hA1, hAA1', ?_, ?_, ?_, ?_⟩
       · intro j hj
         rw [ids_node_plug] at hj
         simp only [List.mem_cons, List.mem_append] at hj
@@ -486,7 +502,7 @@ theorem upd_book : ∀ (p : Path) (v n : T) (A : List Nat) (f : Nat) v' A' f' lo
       · intro a ha
         have := hcnt a ha
         rw [ids_node_plug, hids]
-        simp only [List.count_cons, List.count_append, List.count_nil]
+        simp only [cellIds_some, List.count_cons, List.count_append, List.count_nil]
         split <;> omega
       · intro a ha
         have := hfresh a ha
@@ -501,14 +517,31 @@ theorem upd_book : ∀ (p : Path) (v n : T) (A : List Nat) (f : Nat) v' A' f' lo
         · exact hlogv e' he'
         · exact ⟨hidA, hidv⟩
     · -- fresh copy
-      refine ⟨by omega, ?_, fun a h => List.mem_cons_of_mem _ (hAA1 a h), ?_, ?_, ?_, hlogv⟩
+      have hA2sub : ∀ a ∈ A2, a ∈ A1 := by
+        rcases hA2 with ⟨rfl, _⟩ | ⟨id, c, _, _, rfl⟩
+        · exact fun a h => h
+        · exact fun a h => (List.mem_filter.mp h).1
+      have hA2keep : ∀ a ∈ A1, a ∈ A2 ∨ a ∈ spine (e :: p) v := by
+        rcases hA2 with ⟨rfl, _⟩ | ⟨id, c, rfl, _, rfl⟩
+        · exact fun a h => Or.inl h
+        · intro a h
+          by_cases hai : a = id
+          · exact Or.inr (by rw [hspine, hai]; simp)
+          · exact Or.inl (List.mem_filter.mpr ⟨h, by simpa using hai⟩)
+      refine ⟨by omega, ?_, ?_, ?_, ?_, ?_, hlogv⟩
       · intro a ha
         simp only [List.mem_cons] at ha
         rcases ha with rfl | ha
         · exact Or.inr ⟨hf, by omega⟩
-        · rcases hA1 a ha with h | h
+        · rcases hA1 a (hA2sub a ha) with h | h
           · exact Or.inl h
           · exact Or.inr ⟨h.1, by omega⟩
+      · intro a ha
+        rcases hAA1' a ha with h | h
+        · rcases hA2keep a h with h' | h'
+          · exact Or.inl (List.mem_cons_of_mem _ h')
+          · exact Or.inr h'
+        · exact Or.inr h
       · intro j hj
         rw [ids_node_plug] at hj
         simp only [List.mem_cons, List.mem_append] at hj
@@ -577,7 +610,7 @@ theorem upd_cons : ∀ (p : Path) (v n : T) (A : List Nat) (f : Nat) v' A' f' lo
       rw [consK_append]
       refine ⟨consK_of_not_mem _ _ _ (not_mem_of_count_zero (by omega)), ?_, consK_of_not_mem _ _ _ (not_mem_of_count_zero (by omega))⟩
       exact hrec e' he'
-    rcases hcase with ⟨id, c, rfl, hin, rfl, rfl, rfl, rfl⟩ | ⟨c', rfl, rfl, rfl, rfl⟩
+    rcases hcase with ⟨id, c, rfl, hin, rfl, rfl, rfl, rfl⟩ | ⟨c', A2, rfl, rfl, rfl, rfl, _⟩
     · have hidv : id ∈ v.ids := by rw [hids]; simp
       have hidf : id < f := hv id hidv
       have hidA : id ∈ A := by
@@ -586,7 +619,7 @@ theorem upd_cons : ∀ (p : Path) (v n : T) (A : List Nat) (f : Nat) v' A' f' lo
         · omega
       have hroot : ∀ a, v.ids.count a = (if id == a then 1 else 0) +
           ((idsK fo.pre).count a + fo.child.ids.count a + (idsK fo.post).count a) := by
-        intro a; rw [hids]; simp only [List.count_append, List.count_cons, List.count_nil]; omega
+        intro a; rw [hids]; simp only [cellIds_some, List.count_append, List.count_cons, List.count_nil]; omega
       intro e' he'
       simp only [List.mem_append, List.mem_singleton] at he'
       rcases he' with he' | rfl
@@ -813,58 +846,146 @@ theorem enter_tc (A : List Nat) (e : PE) (v : T) (cell o fo) (h : enter e v = so
     · exact tc_kid ht x hx
   exact ⟨key _ (Or.inl rfl), fun x hx => key _ (Or.inr ⟨x, by simp [hx], rfl⟩), fun x hx => key _ (Or.inr ⟨x, by simp [hx], rfl⟩)⟩
 
+theorem spine_count : ∀ (p : Path) (v : T) (a : Nat), (spine p v).count a ≤ v.ids.count a := by
+  intro p
+  induction p with
+  | nil => intro v a; simp [spine]
+  | cons e p ih =>
+    intro v a
+    simp only [spine]
+    cases he : enter e v with
+    | none => simp
+    | some r =>
+      obtain ⟨cell, o, fo⟩ := r
+      have := ih fo.child a
+      rw [enter_ids e v cell o fo he]
+      simp only [List.count_append]
+      omega
+
 /-- (5) `upd` keeps the owned part top-closed -/
 theorem upd_tc : ∀ (p : Path) (v n : T) (A : List Nat) (f : Nat) v' A' f' log,
     upd A f p v n = some (v', A', f', log) →
-    tc A v → (∀ a ∈ A, a ∉ n.ids) →
+    tc A v → Uniq A v → (∀ a ∈ A, a ∉ n.ids) →
     (∀ j ∈ v.ids, j < f) → (∀ j ∈ n.ids, j < f) → (∀ a ∈ A, a < f) → tc A' v' := by
   intro p
   induction p with
   | nil =>
-    intro v n A f v' A' f' log h _ hnA _ _ _
+    intro v n A f v' A' f' log h _ _ hnA _ _ _
     simp only [upd, Option.some.injEq, Prod.mk.injEq] at h
     obtain ⟨rfl, rfl, rfl, rfl⟩ := h
     exact tc_of_disjoint _ _ (fun a ha hA => hnA a hA ha)
   | cons e p ih =>
-    intro v n A f v' A' f' log h ht hnA hv hn hA
+    intro v n A f v' A' f' log h ht hu1 hnA hv hn hA
     obtain ⟨cell, o, fo, u, A1, f1, log1, he, hu, hcase⟩ := upd_step A f e p v n v' A' f' log h
     have hids := enter_ids e v cell o fo he
     have hpre : ∀ j ∈ idsK fo.pre, j < f := fun j hj => hv j (by rw [hids]; simp [hj])
     have hpost : ∀ j ∈ idsK fo.post, j < f := fun j hj => hv j (by rw [hids]; simp [hj])
     have hchild : ∀ j ∈ fo.child.ids, j < f := fun j hj => hv j (by rw [hids]; simp [hj])
+    have hge : ∀ a, v.ids.count a = (cellIds cell).count a +
+        ((idsK fo.pre).count a + fo.child.ids.count a + (idsK fo.post).count a) := by
+      intro a; rw [hids]; simp only [List.count_append]
+    have huc : Uniq A fo.child := fun a ha => by have := hu1 a ha; have := hge a; omega
     obtain ⟨hf, hA1, hAA1, hub, hcnt, hfresh, hlog⟩ := upd_book p fo.child n A f u A1 f1 log1 hu hchild hn hA
     obtain ⟨tcc, tcpre, tcpost⟩ := enter_tc A e v cell o fo he ht
-    have htu := ih fo.child n A f u A1 f1 log1 hu tcc hnA hchild hn hA
-    -- old trees keep their status under any allocator that agrees with `A` below `f`
-    have old : ∀ (A'' : List Nat), (∀ j, j < f → (j ∈ A ↔ j ∈ A'')) → ∀ t : T, (∀ j ∈ t.ids, j < f) → tc A t → tc A'' t :=
-      fun A'' hag t hb ht' => tc_congr A A'' t (fun j hj => hag j (hb j hj)) ht'
-    have agree1 : ∀ j, j < f → (j ∈ A ↔ j ∈ A1) := fun j hj =>
-      ⟨hAA1 j, fun h1 => by rcases hA1 j h1 with h2 | h2; exact h2; omega⟩
-    rcases hcase with ⟨id, c, rfl, hin, rfl, rfl, rfl, rfl⟩ | ⟨c', rfl, rfl, rfl, rfl⟩
+    have htu := ih fo.child n A f u A1 f1 log1 hu tcc huc hnA hchild hn hA
+    -- an owned label of a sibling is not on the spine below, so it is still registered
+    have sibKeep : ∀ j, j ∈ A → (idsK fo.pre).count j + (idsK fo.post).count j > 0 → j ∈ A1 := by
+      intro j hj hpos
+      rcases hAA1 j hj with h | h
+      · exact h
+      · exfalso
+        have := spine_count p fo.child j
+        have := count_pos_of_mem h
+        have := hu1 j hj
+        have := hge j
+        omega
+    have sibAgree : ∀ (l : Kids) (x : Bytes × T), x ∈ l → (∀ a, (idsK l).count a ≤ (idsK fo.pre).count a + (idsK fo.post).count a) →
+        (∀ j ∈ idsK l, j < f) → ∀ j ∈ x.2.ids, (j ∈ A ↔ j ∈ A1) := by
+      intro l x hx hl hb j hj
+      have hjl : j ∈ idsK l := mem_idsK hx j hj
+      constructor
+      · intro h; exact sibKeep j h (by have := hl j; have := count_pos_of_mem hjl; omega)
+      · intro h
+        rcases hA1 j h with h2 | h2
+        · exact h2
+        · have := hb j hjl; omega
+    rcases hcase with ⟨id, c, rfl, hin, rfl, rfl, rfl, rfl⟩ | ⟨c', A2, rfl, rfl, rfl, rfl, hA2⟩
     · simp only [tc]
       refine ⟨fun _ => ?_, fun hnin => absurd hin hnin⟩
       rw [tcK_iff]
       intro x hx
       simp only [List.mem_append, List.mem_cons] at hx
       rcases hx with hx | rfl | hx
-      · exact old _ agree1 _ (fun j hj => hpre j (mem_idsK hx j hj)) (tcpre x hx)
+      · exact tc_congr A _ x.2 (sibAgree fo.pre x hx (fun a => by omega) hpre) (tcpre x hx)
       · exact htu
-      · exact old _ agree1 _ (fun j hj => hpost j (mem_idsK hx j hj)) (tcpost x hx)
+      · exact tc_congr A _ x.2 (sibAgree fo.post x hx (fun a => by omega) hpost) (tcpost x hx)
     · simp only [tc]
       refine ⟨fun _ => ?_, fun hnin => absurd (List.mem_cons_self) hnin⟩
-      have agree2 : ∀ j, j < f → (j ∈ A ↔ j ∈ f1 :: A1) := fun j hj => by
-        rw [agree1 j hj]; simp only [List.mem_cons]
-        exact ⟨Or.inr, fun h => by rcases h with h | h; omega; exact h⟩
+      -- membership in the new allocator for labels below `f1` other than a freed root
+      have a2 : ∀ j, j < f1 → (j ∈ A1 ∧ (∀ id c, cell = some (id, c) → j ≠ id) → j ∈ f1 :: A2) ∧ (j ∈ f1 :: A2 → j ∈ A1) := by
+        intro j hj
+        constructor
+        · intro ⟨h1, h2⟩
+          rcases hA2 with ⟨hEq, _⟩ | ⟨id, c, hc, _, hEq⟩
+          · rw [hEq]; exact List.mem_cons_of_mem _ h1
+          · rw [hEq]; exact List.mem_cons_of_mem _ (List.mem_filter.mpr ⟨h1, by simpa using h2 id c hc⟩)
+        · intro hm
+          rcases List.mem_cons.mp hm with rfl | hm
+          · omega
+          · rcases hA2 with ⟨hEq, _⟩ | ⟨id, c, _, _, hEq⟩
+            · rw [hEq] at hm; exact hm
+            · rw [hEq] at hm; exact (List.mem_filter.mp hm).1
+      -- the root of `v`, when it is an owned cell, occurs nowhere below
+      have rootOnce : ∀ id c, cell = some (id, c) → id ∈ A →
+          (idsK fo.pre).count id + fo.child.ids.count id + (idsK fo.post).count id = 0 := by
+        intro id c hc hidA
+        have := hu1 id hidA
+        have := hge id
+        rw [hc] at this
+        simp only [cellIds_some, List.count_cons, List.count_nil, beq_self_eq_true, if_true] at this
+        omega
+      have sib : ∀ (l : Kids) (x : Bytes × T), x ∈ l → (∀ a, (idsK l).count a ≤ (idsK fo.pre).count a + (idsK fo.post).count a) →
+          (∀ j ∈ idsK l, j < f) → tc A x.2 → tc (f1 :: A2) x.2 := by
+        intro l x hx hl hb htx
+        refine tc_congr A _ x.2 ?_ htx
+        intro j hj
+        have hjl : j ∈ idsK l := mem_idsK hx j hj
+        have hjf : j < f := hb j hjl
+        constructor
+        · intro hm
+          refine (a2 j (by omega)).1 ⟨(sibAgree l x hx hl hb j hj).mp hm, ?_⟩
+          intro id c hc heq
+          subst heq
+          have := rootOnce j c hc hm
+          have := hl j
+          have := count_pos_of_mem hjl
+          omega
+        · intro hm
+          exact (sibAgree l x hx hl hb j hj).mpr ((a2 j (by omega)).2 hm)
       rw [tcK_iff]
       intro x hx
       simp only [List.mem_append, List.mem_cons] at hx
       rcases hx with hx | rfl | hx
-      · exact old _ agree2 _ (fun j hj => hpre j (mem_idsK hx j hj)) (tcpre x hx)
-      · refine tc_congr A1 (f1 :: A1) u ?_ htu
+      · exact sib fo.pre x hx (fun a => by omega) hpre (tcpre x hx)
+      · refine tc_congr A1 (f1 :: A2) u ?_ htu
         intro j hj
-        have := hub j hj
-        simp only [List.mem_cons]
-        exact ⟨Or.inr, fun h => by rcases h with h | h; omega; exact h⟩
-      · exact old _ agree2 _ (fun j hj => hpost j (mem_idsK hx j hj)) (tcpost x hx)
+        have hjf1 := hub j hj
+        constructor
+        · intro hm
+          refine (a2 j hjf1).1 ⟨hm, ?_⟩
+          intro id c hc heq
+          subst heq
+          -- the root of `v`, if owned, is below `f` and unique: it does not occur in `u`
+          rcases hA1 j hm with h2 | h2
+          · have h0 := rootOnce j c hc h2
+            have := hcnt j (hA j h2)
+            have : n.ids.count j = 0 := List.count_eq_zero.mpr (hnA j h2)
+            have := count_pos_of_mem hj
+            omega
+          · have : j ∈ v.ids := by rw [hids, hc]; simp
+            have := hv j this
+            omega
+        · exact (a2 j hjf1).2
+      · exact sib fo.post x hx (fun a => by omega) hpost (tcpost x hx)
 
 end Gojq.Heap
